@@ -42,6 +42,27 @@ Fixpoint kv_get (k : nat) (m : kv) : option Z :=
 
 Record task := { t_status : status; t_started : bool; t_disabled : bool (* a SkippableTask whose is_enabled() is false *) }.
 
+(* synthetic stages (before / after / on-failure children planned by a StageDefinitionBuilder) *)
+Inductive owner := OwnBefore | OwnAfter.                (* SyntheticStageOwner.STAGE_BEFORE / STAGE_AFTER *)
+Definition owner_eqb (a b : owner) : bool :=
+  match a, b with OwnBefore, OwnBefore | OwnAfter, OwnAfter => true | _, _ => false end.
+
+(* what the builder of a stage type adds: one child per template; `tp_chain` = graph.append (depends on the
+   previously added child), otherwise graph.add *)
+Record tmpl := { tp_script : nat; tp_ntasks : nat; tp_chain : bool }.
+
+(* static description of a stage as a (possible) parent / child *)
+Record syn := {
+  y_parent : option nat;             (* parent_stage_id *)
+  y_owner : option owner;            (* synthetic_stage_owner *)
+  y_script : nat;                    (* label of the builder template (harness bookkeeping: which scripted behaviour the
+                                        stage's tasks have; the model's oracle is keyed by the row index) *)
+  y_ntasks : nat;                    (* builder.build_tasks: tasks built at plan time when the stage has none *)
+  y_before : list tmpl;              (* builder.before_stages *)
+  y_after : list tmpl;               (* builder.after_stages *)
+  y_fail : list tmpl;                (* builder.on_failure_stages *)
+}.
+
 Record stage := {
   s_reqs : list nat;                 (* requisite_stage_ref_ids, as stage indices (all smaller than own index) *)
   s_join : join_type;
@@ -70,6 +91,8 @@ Record stage := {
   s_ctx : kv;                        (* user context keys *)
   s_outs : kv;                       (* outputs *)
   s_tasks : list task;
+  s_syn : syn;
+  s_onfail : bool;                   (* context._on_failure_planned *)
 }.
 
 Inductive msg :=
@@ -87,7 +110,8 @@ Inductive msg :=
 | MSignalStage (s name : nat) (persistent : bool)
 | MPauseTask (s t : nat)
 | MResumeStage (s : nat)
-| MRestartStage (s : nat).
+| MRestartStage (s : nat)
+| MContinueParent (s : nat) (o : owner) (retry : Z).
 
 Record qrow := { q_id : nat; q_msg : msg; q_attempts : Z }.
 
@@ -200,7 +224,7 @@ Definition st_set (st : stage) (status : status) (started ended : bool) (fired :
      s_status := status; s_started := started; s_ended := ended; s_version := s_version st + 1;
      s_fired := fired; s_branches := branches; s_bypass := s_bypass st; s_jump_count := s_jump_count st;
      s_buffered := s_buffered st; s_signal := s_signal st; s_has_exc := has_exc; s_plan_pending := s_plan_pending st; s_hydrated := s_hydrated st;
-     s_ctx := ctx; s_outs := outs; s_tasks := tasks |}.
+     s_ctx := ctx; s_outs := outs; s_tasks := tasks; s_syn := s_syn st; s_onfail := s_onfail st |}.
 
 (* store_stage of an object whose only changes are the given ones; version + 1 *)
 Definition st_status (st : stage) (x : status) : stage :=
@@ -221,7 +245,7 @@ Definition st_ctl (st : stage) (bypass : bool) (jc : Z) (buffered : list nat) (s
      s_status := s_status st; s_started := s_started st; s_ended := s_ended st; s_version := s_version st;
      s_fired := s_fired st; s_branches := s_branches st; s_bypass := bypass; s_jump_count := jc;
      s_buffered := buffered; s_signal := sig; s_has_exc := s_has_exc st; s_plan_pending := s_plan_pending st; s_hydrated := s_hydrated st;
-     s_ctx := s_ctx st; s_outs := s_outs st; s_tasks := s_tasks st |}.
+     s_ctx := s_ctx st; s_outs := s_outs st; s_tasks := s_tasks st; s_syn := s_syn st; s_onfail := s_onfail st |}.
 
 (* context change folded into a store that is already counted (no extra version bump) *)
 Definition with_ctx (st : stage) (ctx : kv) : stage :=
@@ -230,7 +254,7 @@ Definition with_ctx (st : stage) (ctx : kv) : stage :=
      s_status := s_status st; s_started := s_started st; s_ended := s_ended st; s_version := s_version st;
      s_fired := s_fired st; s_branches := s_branches st; s_bypass := s_bypass st; s_jump_count := s_jump_count st;
      s_buffered := s_buffered st; s_signal := s_signal st; s_has_exc := s_has_exc st; s_plan_pending := s_plan_pending st; s_hydrated := s_hydrated st;
-     s_ctx := ctx; s_outs := s_outs st; s_tasks := s_tasks st |}.
+     s_ctx := ctx; s_outs := s_outs st; s_tasks := s_tasks st; s_syn := s_syn st; s_onfail := s_onfail st |}.
 
 Definition with_pending (st : stage) (p : bool) : stage :=
   {| s_reqs := s_reqs st; s_join := s_join st; s_threshold := s_threshold st; s_cof := s_cof st; s_fp := s_fp st;
@@ -238,7 +262,7 @@ Definition with_pending (st : stage) (p : bool) : stage :=
      s_status := s_status st; s_started := s_started st; s_ended := s_ended st; s_version := s_version st;
      s_fired := s_fired st; s_branches := s_branches st; s_bypass := s_bypass st; s_jump_count := s_jump_count st;
      s_buffered := s_buffered st; s_signal := s_signal st; s_has_exc := s_has_exc st; s_plan_pending := p; s_hydrated := s_hydrated st;
-     s_ctx := s_ctx st; s_outs := s_outs st; s_tasks := s_tasks st |}.
+     s_ctx := s_ctx st; s_outs := s_outs st; s_tasks := s_tasks st; s_syn := s_syn st; s_onfail := s_onfail st |}.
 
 Definition with_hydrated (st : stage) (ctx : kv) (h : list nat) : stage :=
   {| s_reqs := s_reqs st; s_join := s_join st; s_threshold := s_threshold st; s_cof := s_cof st; s_fp := s_fp st;
@@ -246,7 +270,15 @@ Definition with_hydrated (st : stage) (ctx : kv) (h : list nat) : stage :=
      s_status := s_status st; s_started := s_started st; s_ended := s_ended st; s_version := s_version st;
      s_fired := s_fired st; s_branches := s_branches st; s_bypass := s_bypass st; s_jump_count := s_jump_count st;
      s_buffered := s_buffered st; s_signal := s_signal st; s_has_exc := s_has_exc st; s_plan_pending := s_plan_pending st;
-     s_hydrated := h; s_ctx := ctx; s_outs := s_outs st; s_tasks := s_tasks st |}.
+     s_hydrated := h; s_ctx := ctx; s_outs := s_outs st; s_tasks := s_tasks st; s_syn := s_syn st; s_onfail := s_onfail st |}.
+
+Definition with_onfail (st : stage) (b : bool) : stage :=
+  {| s_reqs := s_reqs st; s_join := s_join st; s_threshold := s_threshold st; s_cof := s_cof st; s_fp := s_fp st;
+     s_enabled := s_enabled st; s_mutex := s_mutex st; s_choice := s_choice st; s_max_jumps := s_max_jumps st; s_split_or := s_split_or st; s_conds := s_conds st;
+     s_status := s_status st; s_started := s_started st; s_ended := s_ended st; s_version := s_version st;
+     s_fired := s_fired st; s_branches := s_branches st; s_bypass := s_bypass st; s_jump_count := s_jump_count st;
+     s_buffered := s_buffered st; s_signal := s_signal st; s_has_exc := s_has_exc st; s_plan_pending := s_plan_pending st;
+     s_hydrated := s_hydrated st; s_ctx := s_ctx st; s_outs := s_outs st; s_tasks := s_tasks st; s_syn := s_syn st; s_onfail := b |}.
 
 Definition task_set (ts : list task) (t : nat) (x : status) (started : bool) : list task :=
   match nth_error ts t with
@@ -267,6 +299,49 @@ Definition upstream (s : state) (st : stage) : list up :=
                      | Some u => if mem_nat j (s_reqs st) then [(j, s_status u)] else []
                      | None => [] end)
            (seqn (length (w_stages s))).
+
+(* ---- synthetic stages ---- *)
+Definition parent_is (i : nat) (c : stage) : bool :=
+  match y_parent (s_syn c) with Some p => p =? i | None => false end.
+Definition owner_is (o : owner) (c : stage) : bool :=
+  match y_owner (s_syn c) with Some o' => owner_eqb o o' | None => false end.
+Definition is_top_level (st : stage) : bool :=
+  match y_parent (s_syn st) with None => true | Some _ => false end.
+
+(* stage.synthetic_stages() / get_synthetic_stages, in row order *)
+Definition children (s : state) (i : nat) : list nat :=
+  filter (fun j => match get_stage s j with Some c => parent_is i c | None => false end) (seqn (length (w_stages s))).
+Definition kids (s : state) (i : nat) (o : owner) : list nat :=
+  filter (fun j => match get_stage s j with Some c => owner_is o c | None => false end) (children s i).
+Definition status_at (s : state) (j : nat) : status :=
+  match get_stage s j with Some c => s_status c | None => NOT_STARTED end.
+Definition initial_at (s : state) (j : nat) : bool :=
+  match get_stage s j with Some c => is_nil (s_reqs c) | None => false end.
+
+(* StageExecution.create_synthetic + StageGraphBuilder.add / append: the k-th new child gets row index base + k *)
+Definition mk_child (parent : nat) (o : owner) (reqs : list nat) (t : tmpl) : stage :=
+  {| s_reqs := reqs; s_join := J_AND; s_threshold := 0; s_cof := false; s_fp := true; s_enabled := None; s_mutex := None;
+     s_choice := None; s_max_jumps := None; s_split_or := false; s_conds := []; s_status := NOT_STARTED; s_started := false;
+     s_ended := false; s_version := 0; s_fired := false; s_branches := []; s_bypass := false; s_jump_count := 0;
+     s_buffered := []; s_signal := None; s_has_exc := false; s_plan_pending := false; s_hydrated := []; s_ctx := []; s_outs := [];
+     s_tasks := [];
+     s_syn := {| y_parent := Some parent; y_owner := Some o; y_script := tp_script t; y_ntasks := tp_ntasks t;
+                 y_before := []; y_after := []; y_fail := [] |};
+     s_onfail := false |}.
+
+Fixpoint mk_children_from (k : nat) (base parent : nat) (o : owner) (ts : list tmpl) : list stage :=
+  match ts with
+  | [] => []
+  | t :: r => mk_child parent o (if tp_chain t && (0 <? k) then [base + k - 1] else []) t
+              :: mk_children_from (S k) base parent o r
+  end.
+Definition mk_children (base parent : nat) (o : owner) (ts : list tmpl) : list stage := mk_children_from 0 base parent o ts.
+
+(* indices (base + k) of the new children that are initial (no requisites) *)
+Definition new_initial (base : nat) (cs : list stage) : list nat :=
+  map fst (filter (fun p => is_nil (s_reqs (snd p))) (combine (seq base (length cs)) cs)).
+
+Definition fresh_tasks (n : nat) : list task := repeat {| t_status := NOT_STARTED; t_started := false; t_disabled := false |} n.
 
 Definition rstage_of (st : stage) : rstage :=
   {| r_join := s_join st; r_threshold := s_threshold st; r_fired := s_fired st; r_activated := None |}.
@@ -320,7 +395,8 @@ Inductive op :=
 | OClaims (c : list (bool * nat * nat))(* stage_claims after acquire_claim *)
 | OGStart (i : nat) (jc : Z)           (* ghost: this commit moved stage i NOT_STARTED -> RUNNING *)
 | OBump (id : nat)                     (* poll_one's claim: attempts + 1 (lock) *)
-| OAck (id : nat).                     (* queue.ack: delete the row *)
+| OAck (id : nat)                      (* queue.ack: delete the row *)
+| OAdd (st : stage).                   (* store_stage of a NEW (synthetic) stage: appended, row index = old length *)
 
 Definition commit := list op.
 
@@ -339,6 +415,7 @@ Definition apply_op (s : state) (o : op) : state :=
   | OGStart i jc => ghost_start i jc s
   | OBump id => bump_attempts id s
   | OAck id => ack id s
+  | OAdd st => with_stages s (w_stages s ++ [st])
   end.
 
 Definition apply_commit (s : state) (c : commit) : state := fold_left apply_op c s.
@@ -360,7 +437,7 @@ Definition c_cancel : commit := [OCancelFlag].
 
 (* ---- StartWorkflow ---- *)
 Definition initial_stages (s : state) : list nat :=
-  filter (fun j => match get_stage s j with Some u => is_nil (s_reqs u) | None => false end)
+  filter (fun j => match get_stage s j with Some u => is_nil (s_reqs u) && is_top_level u | None => false end)
          (seqn (length (w_stages s))).
 
 Definition handle_start_workflow (s : state) (id : nat) : hres :=
@@ -410,10 +487,32 @@ Definition acquire_claim (s : state) (is_mutex : bool) (k : nat) (i : nat) (stea
       else (false, w_claims s)
   end.
 
-Definition first_msgs (i : nat) (st : stage) : list msg :=
-  match s_tasks st with
-  | [] => [MCompleteStage i]
-  | _ => [MStartTask i 0]
+(* _plan_stage: tasks are built by the builder only when the stage has none; before stages are built only when the
+   stage has no before child yet (a re-plan adds no second set) *)
+Definition planned_tasks (st : stage) : list task :=
+  match s_tasks st with [] => fresh_tasks (y_ntasks (s_syn st)) | ts => ts end.
+
+Definition new_before (s : state) (i : nat) (st : stage) : list stage :=
+  match kids s i OwnBefore with
+  | [] => mk_children (length (w_stages s)) i OwnBefore (y_before (s_syn st))
+  | _ => []
+  end.
+
+(* _collect_start_messages: initial before stages (persisted ones, whatever their status, and the new ones), else the
+   first task, else the initial after stages, else CompleteStage *)
+Definition first_msgs (s : state) (i : nat) (st : stage) : list msg :=
+  let befores := filter (initial_at s) (kids s i OwnBefore) ++ new_initial (length (w_stages s)) (new_before s i st) in
+  match befores with
+  | _ :: _ => map (fun j => MStartStage j 0) befores
+  | [] =>
+      match planned_tasks st with
+      | _ :: _ => [MStartTask i 0]
+      | [] =>
+          match filter (initial_at s) (kids s i OwnAfter) with
+          | _ :: _ as afters => map (fun j => MStartStage j 0) afters
+          | [] => [MCompleteStage i]
+          end
+      end
   end.
 
 Definition siblings_not_started (s : state) (i : nat) (g : nat) : list nat :=
@@ -425,7 +524,7 @@ Definition siblings_not_started (s : state) (i : nat) (g : nat) : list nat :=
 Definition start_if_ready (s : state) (id i : nat) (retry : Z) (st0 : stage) (bypass : bool) : hres :=
   (* st0 = the stage as read, with _jump_bypass already deleted in memory when it was set *)
   let st := if bypass then st_ctl st0 false (s_jump_count st0) (s_buffered st0) (s_signal st0) else st0 in
-  let zombie := status_eqb (s_status st) RUNNING && (s_plan_pending st || is_nil (s_tasks st)) in
+  let zombie := status_eqb (s_status st) RUNNING && (s_plan_pending st || (is_nil (s_tasks st) && is_nil (children s i))) in
   if negb (start_stage_fresh (s_status st)) && negb zombie then ok []
   else if should_skip st then ok [txn [c_mark id; c_push (MSkipStage i)]]
   else if mutex_blocked s i st then ok [c_push (MStartStage i (retry + 1))]
@@ -455,10 +554,10 @@ Definition start_if_ready (s : state) (id i : nat) (retry : Z) (st0 : stage) (by
         let fired := match s_join st with J_DISCRIMINATOR | J_N_OF_M => true | _ => s_fired st end in
         let planned := with_pending (with_hydrated
                          (st_set claimed (s_status claimed) (s_started claimed) (s_ended claimed) fired (s_branches claimed)
-                                 (s_has_exc claimed) (planned_ctx s st) (s_outs claimed) (s_tasks claimed))
+                                 (s_has_exc claimed) (planned_ctx s st) (s_outs claimed) (planned_tasks st))
                          (planned_ctx s st) (planned_hydrated s st)) false in
         ok ([claim_commit] ++ sib_commits ++
-            [txn [c_put i planned; c_mark id; c_pushes (first_msgs i st)]]).
+            [txn [c_put i planned; map OAdd (new_before s i st); c_mark id; c_pushes (first_msgs s i st)]]).
 
 Definition handle_start_stage (s : state) (id i : nat) (retry : Z) : hres :=
   match get_stage s i with
@@ -627,24 +726,70 @@ Definition downstream_msgs (st : stage) (ds : list nat) : list msg :=
          end
   end.
 
+(* where a finished (or failed) stage reports to: the workflow for a top-level stage, its parent for a child *)
+Definition up_msg (st : stage) : msg :=
+  match y_owner (s_syn st), y_parent (s_syn st) with
+  | Some _, Some p => MCompleteStage p
+  | _, _ => MCompleteWorkflow 0
+  end.
+
+(* after a continuable completion: downstream stages (with the split decision), else the parent, else the workflow *)
+Definition next_msgs (st : stage) (ds : list nat) : list msg :=
+  match ds with
+  | _ :: _ => downstream_msgs st ds
+  | [] => match y_owner (s_syn st) with
+          | Some o => match y_parent (s_syn st) with Some p => [MContinueParent p o 0] | None => [] end
+          | None => [MCompleteWorkflow 0]
+          end
+  end.
+
+Definition core_ok (x : status) : bool := status_eqb x SUCCEEDED || status_eqb x SKIPPED || status_eqb x FAILED_CONTINUE.
+
 Definition handle_complete_stage (s : state) (id i : nat) : hres :=
   match get_stage s i with
   | None => ok []
   | Some st =>
       if status_eqb (s_status st) NOT_STARTED then ok [c_mark id]
       else if negb (complete_stage_guard (s_status st)) then
-        if is_halt (s_status st) then ok [txn [c_mark id; c_push (MCompleteWorkflow 0)]] else ok []
+        if is_halt (s_status st) then ok [txn [c_mark id; c_push (up_msg st)]] else ok []
       else
-        let x := determine_status (s_status st) (s_cof st) (s_fp st) [] (map t_status (s_tasks st)) [] in
-        if status_eqb x RUNNING then ok [c_mark id]
-        else if negb (can_transition (s_status st) x) then raised
+        let before := map (status_at s) (kids s i OwnBefore) in
+        let after := map (status_at s) (kids s i OwnAfter) in
+        let tasks := map t_status (s_tasks st) in
+        let x := determine_status (s_status st) (s_cof st) (s_fp st) before tasks after in
+        let first_after := filter (initial_at s) (kids s i OwnAfter) in
+        let base := length (w_stages s) in
+        (* after stages: when the status is complete and not a halt, or RUNNING only because every initial after
+           stage is still NOT_STARTED while the core work (before stages + tasks) is done *)
+        let do_after :=
+          (is_complete x && negb (is_halt x)) ||
+          (status_eqb x RUNNING && negb (is_nil first_after) &&
+           forallb (fun j => status_eqb (status_at s j) NOT_STARTED) first_after &&
+           negb (is_nil (before ++ tasks)) && forallb core_ok (before ++ tasks)) in
+        let new_after := if do_after && is_nil first_after then mk_children base i OwnAfter (y_after (s_syn st)) else [] in
+        let after_ns := filter (fun j => status_eqb (status_at s j) NOT_STARTED) first_after ++ new_initial base new_after in
+        if do_after && negb (is_nil after_ns) then
+          ok [txn [c_put i (st_touch st); map OAdd new_after; c_mark id; c_pushes (map (fun j => MStartStage j 0) after_ns)]]
         else
-          let st' := st_end st x in
-          if status_eqb x SUCCEEDED || status_eqb x FAILED_CONTINUE || status_eqb x SKIPPED then
-            let ds := downstream s i in
-            ok (join_tracking s i ds ++
-                [txn [c_put i st'; c_mark id; c_pushes (downstream_msgs st ds)]])
-          else ok [txn [c_put i st'; c_push (MCancelStage i); c_push (MCompleteWorkflow 0)]]
+          let failing := negb do_after && is_failure x in
+          if failing && existsb (fun j => negb (is_complete (status_at s j))) first_after then ok [c_mark id]
+          else
+            let new_fail := if failing && negb (s_onfail st) then mk_children base i OwnAfter (y_fail (s_syn st)) else [] in
+            let fail_ns := filter (fun j => status_eqb (status_at s j) NOT_STARTED) first_after ++ new_initial base new_fail in
+            if negb (is_nil new_fail) && negb (is_nil fail_ns) then
+              ok [txn [c_put i (st_touch (with_onfail st true)); map OAdd new_fail; c_mark id;
+                       c_pushes (map (fun j => MStartStage j 0) fail_ns)]]
+            else
+              let st := if negb (is_nil new_fail) then with_onfail st true else st in
+              if status_eqb x RUNNING then ok [c_mark id]
+              else if negb (can_transition (s_status st) x) then raised
+              else
+                let st' := st_end st x in
+                if status_eqb x SUCCEEDED || status_eqb x FAILED_CONTINUE || status_eqb x SKIPPED then
+                  let ds := downstream s i in
+                  ok (join_tracking s i ds ++
+                      [txn [c_put i st'; c_mark id; c_pushes (next_msgs st ds)]])
+                else ok [txn [c_put i st'; c_push (MCancelStage i); c_push (up_msg st)]]
   end.
 
 (* ---- SkipStage ---- *)
@@ -656,7 +801,11 @@ Definition handle_skip_stage (s : state) (id i : nat) : hres :=
       else
         let ds := downstream s i in
         ok [txn [c_put i (st_end st SKIPPED); c_mark id;
-                 c_pushes (match ds with [] => [MCompleteWorkflow 0] | _ => map (fun d => MStartStage d 0) ds end)]]
+                 c_pushes (match ds with
+                           | [] => match y_owner (s_syn st) with
+                                   | Some o => match y_parent (s_syn st) with Some p => [MContinueParent p o 0] | None => [] end
+                                   | None => [MCompleteWorkflow 0] end
+                           | _ => map (fun d => MStartStage d 0) ds end)]]
   end.
 
 (* ---- CancelStage ---- *)
@@ -680,10 +829,10 @@ Definition can_still_start (s : state) (st : stage) : bool :=
   match rr_phase (evaluate_readiness (rstage_of st) (upstream s st) false) with P_READY => true | _ => false end.
 
 Definition tl_view (s : state) : list tl_stage :=
-  map (fun st => (s_status st, can_still_start s st)) (w_stages s).
+  map (fun st => (s_status st, can_still_start s st)) (filter is_top_level (w_stages s)).
 
 Definition running_stages (s : state) : list nat :=
-  filter (fun j => match get_stage s j with Some u => status_eqb (s_status u) RUNNING | None => false end)
+  filter (fun j => match get_stage s j with Some u => status_eqb (s_status u) RUNNING && is_top_level u | None => false end)
          (seqn (length (w_stages s))).
 
 Definition handle_complete_workflow (s : state) (id : nat) (retry : Z) : hres :=
@@ -698,7 +847,7 @@ Definition handle_complete_workflow (s : state) (id : nat) (retry : Z) : hres :=
 
 (* ---- CancelWorkflow ---- *)
 Definition incomplete_stages (s : state) : list nat :=
-  filter (fun j => match get_stage s j with Some u => negb (is_complete (s_status u)) | None => false end)
+  filter (fun j => match get_stage s j with Some u => negb (is_complete (s_status u)) && is_top_level u | None => false end)
          (seqn (length (w_stages s))).
 
 Definition handle_cancel_workflow (s : state) (id : nat) : hres :=
@@ -858,6 +1007,40 @@ Definition handle_restart_stage (s : state) (id i : nat) : hres :=
                     c_mark id; c_push (MStartStage i 0)]]
   end.
 
+(* ---- ContinueParentStage (continue_parent_stage.py) ---- *)
+Definition handle_continue_parent (s : state) (id i : nat) (o : owner) (retry : Z) : hres :=
+  match get_stage s i with
+  | None => ok []
+  | Some st =>
+      let ks := map (status_at s) (kids s i o) in
+      if existsb in_halt ks then
+        if negb (can_transition (s_status st) TERMINAL) then raised
+        else ok [txn [c_put i (st_end st TERMINAL); c_mark id; c_push (MCompleteStage i)]]
+      else if negb (forallb in_continuable ks) then
+        if (max_stage_wait_retries <=? retry)%Z then
+          if negb (can_transition (s_status st) TERMINAL) then raised
+          else ok [txn [c_put i (st_set st TERMINAL (s_started st) true (s_fired st) (s_branches st) true (s_ctx st) (s_outs st) (s_tasks st));
+                        c_mark id; c_push (MCompleteStage i)]]
+        else ok [c_push (MContinueParent i o (retry + 1))]
+      else
+        match o with
+        | OwnAfter => ok [txn [c_mark id; c_push (MCompleteStage i)]]
+        | OwnBefore =>
+            match s_tasks st with
+            | _ :: _ => ok [txn [c_mark id; c_push (MStartTask i 0)]]
+            | [] =>
+                match filter (initial_at s) (kids s i OwnAfter) with
+                | [] => ok [txn [c_mark id; c_push (MCompleteStage i)]]
+                | afters =>
+                    match filter (fun j => status_eqb (status_at s j) NOT_STARTED) afters with
+                    | [] => ok []
+                    | ns => ok [txn [c_mark id; c_pushes (map (fun j => MStartStage j 0) ns)]]
+                    end
+                end
+            end
+        end
+  end.
+
 (* ------------------------------------------------------------------------------------------ *)
 (* dispatch, delivery, recovery                                                                *)
 (* ------------------------------------------------------------------------------------------ *)
@@ -880,6 +1063,7 @@ Definition handle (orc : oracle) (s : state) (r : qrow) : hres :=
   | MPauseTask i t => handle_pause_task s id i t
   | MResumeStage i => handle_resume_stage s id i
   | MRestartStage i => handle_restart_stage s id i
+  | MContinueParent i o k => handle_continue_parent s id i o k
   end.
 
 Definition find_row (s : state) (id : nat) : option qrow := find (fun r => q_id r =? id) (w_queue s).
@@ -924,6 +1108,7 @@ Definition recover_stage (s : state) (i : nat) (st : stage) : list msg :=
     match running with
     | _ :: _ => flat_map (fun t => if has_pending_for_task s i t then [] else [MRunTask i t]) running
     | [] =>
+        if negb (s_plan_pending st) && existsb (fun j => negb (is_complete (status_at s j))) (kids s i OwnBefore) then [] else
         match notstarted with
         | t :: _ => if s_started st && negb (s_plan_pending st)
                     then (if has_pending_for_task s i t then [] else [MStartTask i t]) else [MStartStage i 0]
@@ -1018,6 +1203,10 @@ Definition step_trace (orc : oracle) (s : state) (a : action) : list state :=
 (* initial state of a workflow *)
 Definition mk_task (disabled : bool) : task := {| t_status := NOT_STARTED; t_started := false; t_disabled := disabled |}.
 
+Definition top_syn (script : nat) : syn :=
+  {| y_parent := None; y_owner := None; y_script := script; y_ntasks := 0; y_before := []; y_after := []; y_fail := [] |}.
+
 Definition init_state (stages : list stage) (wmax : option Z) : state :=
-  {| w_status := NOT_STARTED; w_canceled := false; w_max_jumps := wmax; w_stages := stages; w_queue := [];
+  {| w_status := NOT_STARTED; w_canceled := false; w_max_jumps := wmax;
+     w_stages := stages; w_queue := [];
      w_next := 1; w_processed := []; w_claims := []; g_execs := []; g_starts := [] |}.
